@@ -47,7 +47,70 @@ func genSessionId(c *ctx) *leanFile {
 		l.str(n, v, ok, "const "+n+" = \"…\" not found in sessionid_codec.go")
 	}
 
-	// c.cookie.<method>(<name>, …) inside a method of SessionIdCodec: the cookie name used.
+	// The names may be bound to the block key: sessionCookieNames(hashKey, blockKey) returns
+	// (privateSessionName [+ suffix], publicSessionName [+ suffix]) with
+	// suffix = "<sep>" + hex(HMAC-SHA256(hashKey, <prefix> ++ blockKey)) when a block key is set,
+	// NewSessionIdCodec stores them in the fields privateName/publicName.
+	norm := func(n ast.Node) string { return strings.Join(strings.Fields(srcText(c.fset, n)), " ") }
+	fieldBase := map[string]string{} // field of SessionIdCodec -> constant it starts with
+	bound, okBound := false, true
+	bindPrefix, bindSep := "", ""
+	if fd := findFunc(f, "", "sessionCookieNames"); fd != nil && fd.Body != nil {
+		t := norm(fd.Body)
+		okShape := strings.Contains(t, "if len(blockKey) == 0 { return privateSessionName, publicSessionName }") &&
+			strings.Contains(t, "mac := hmac.New(sha256.New, hashKey)") &&
+			strings.Contains(t, "mac.Write(blockKey)") &&
+			strings.Contains(t, "return privateSessionName + suffix, publicSessionName + suffix")
+		// mac.Write([]byte(<prefix const>)) before mac.Write(blockKey); suffix := "<sep>" + hex.EncodeToString(mac.Sum(nil))
+		okPrefix, okSep := false, false
+		var posPrefix, posKey token.Pos
+		ast.Inspect(fd.Body, func(x ast.Node) bool {
+			switch s := x.(type) {
+			case *ast.CallExpr:
+				if isSel(s.Fun, "mac", "Write") && len(s.Args) == 1 {
+					if conv, ok := s.Args[0].(*ast.CallExpr); ok && len(conv.Args) == 1 {
+						if v, ok := constStr(conv.Args[0]); ok {
+							bindPrefix, okPrefix, posPrefix = v, true, s.Pos()
+						}
+					} else if isIdent(s.Args[0], "blockKey") {
+						posKey = s.Pos()
+					}
+				}
+			case *ast.AssignStmt:
+				if len(s.Lhs) == 1 && isIdent(s.Lhs[0], "suffix") && len(s.Rhs) == 1 {
+					if be, ok := s.Rhs[0].(*ast.BinaryExpr); ok && be.Op == token.ADD {
+						if v, ok := strLit(be.X); ok && norm(be.Y) == "hex.EncodeToString(mac.Sum(nil))" {
+							bindSep, okSep = v, true
+						}
+					}
+				}
+			}
+			return true
+		})
+		if okShape && okPrefix && okSep && posPrefix < posKey {
+			bound = true
+		} else {
+			okBound = false
+		}
+		// fields assigned from it in NewSessionIdCodec
+		if nf := findFunc(f, "", "NewSessionIdCodec"); nf != nil && nf.Body != nil {
+			tn := norm(nf.Body)
+			if strings.Contains(tn, "privateName, publicName := sessionCookieNames(hashKey, blockKey)") &&
+				strings.Contains(tn, "privateName: privateName") && strings.Contains(tn, "publicName: publicName") {
+				fieldBase["privateName"] = "privateSessionName"
+				fieldBase["publicName"] = "publicSessionName"
+			} else {
+				okBound = false
+			}
+		}
+	}
+	l.boolean("blockKeyBoundToNames", bound, okBound,
+		"sessionCookieNames: `if len(blockKey) == 0 {return constants}; mac := hmac.New(sha256.New, hashKey); mac.Write([]byte(prefix)); mac.Write(blockKey); suffix := sep + hex(mac.Sum(nil)); return private+suffix, public+suffix` and its use in NewSessionIdCodec expected")
+	l.str("blockKeyBindingPrefix", bindPrefix, okBound, "sessionCookieNames: prefix constant not found")
+	l.str("blockKeyNameSep", bindSep, okBound, "sessionCookieNames: suffix separator not found")
+
+	// c.cookie.<method>(<name>, …) inside a method of SessionIdCodec: the cookie name used
+	// (a constant, or a field of the codec that starts with a constant, see above).
 	cookieName := func(fn, method string) (string, bool) {
 		fd := findFunc(f, "SessionIdCodec", fn)
 		if fd == nil || fd.Body == nil {
@@ -67,9 +130,16 @@ func genSessionId(c *ctx) *leanFile {
 			if !ok || inner.Sel.Name != "cookie" {
 				return true
 			}
-			if s, ok := constStr(call.Args[0]); ok {
+			if s, ok := constStr(call.Args[0]); ok && !bound {
 				res = s
 				n++
+			} else if fs, ok := call.Args[0].(*ast.SelectorExpr); ok && isIdent(fs.X, "c") && fieldBase[fs.Sel.Name] != "" && bound {
+				if v, ok := constStr(&ast.Ident{Name: fieldBase[fs.Sel.Name]}); ok {
+					res = v
+					n++
+				} else {
+					n += 100
+				}
 			} else {
 				n += 100
 			}
@@ -81,7 +151,7 @@ func genSessionId(c *ctx) *leanFile {
 		{"encodePrivateName", "EncodePrivate", "Encode"}, {"decodePrivateName", "DecodePrivate", "Decode"},
 		{"encodePublicName", "EncodePublic", "Encode"}, {"decodePublicName", "DecodePublic", "Decode"}} {
 		v, ok := cookieName(p[1], p[2])
-		l.str(p[0], v, ok, p[1]+": exactly one call c.cookie."+p[2]+"(<constant name>, …) expected")
+		l.str(p[0], v, ok, p[1]+": exactly one call c.cookie."+p[2]+"(<name constant or bound name field>, …) expected")
 	}
 
 	// EncodePublic ends in `return reverseSessionId(encoded)`; DecodePublic starts with
